@@ -5,6 +5,8 @@ mod c13;
 mod c14;
 mod c15;
 mod c17;
+mod c18;
+mod c19;
 mod sess;
 mod stores;
 mod util;
@@ -17,6 +19,9 @@ fn main() {
         eprintln!("usage: rtprops <Cxx> [--tier quick|thorough] [--replay file]");
         std::process::exit(2);
     };
+    if prop == "C18-child" {
+        c18::child(args.get(2).map(|s| s.as_str()).unwrap_or("{}"));
+    }
     let settings = Settings::from_env_and_args(&prop, &args[2..]);
     let chk = Check::new(settings, "");
     match prop.as_str() {
@@ -26,6 +31,8 @@ fn main() {
         "C14" => c14::main(chk),
         "C15" => c15::main(chk),
         "C17" => c17::main(chk),
+        "C18" => c18::main(chk),
+        "C19" => c19::main(chk),
         _ => {
             eprintln!("rtprops: unknown property {prop}");
             std::process::exit(2);
